@@ -558,8 +558,46 @@ func (a *FA) lin(v ssa.Value, depth int) Lin {
 		if x.Op == token.SUB {
 			return a.lin(x.X, depth+1).Neg()
 		}
+	case *ssa.Call:
+		// len(x[lo:hi]) = hi - lo, len(x[lo:]) = len(x) - lo   (slices and strings; a helper that returns a sub-slice
+		// and is measured by its caller must read like the arithmetic on the lengths it stands for)
+		if b, ok := x.Call.Value.(*ssa.Builtin); ok && b.Name() == "len" && len(x.Call.Args) == 1 {
+			if sl, ok := x.Call.Args[0].(*ssa.Slice); ok {
+				if _, isPtr := sl.X.Type().Underlying().(*types.Pointer); !isPtr {
+					var hi Lin
+					if sl.High != nil {
+						hi = a.lin(sl.High, depth+1)
+					} else {
+						hi = a.lenOf(sl.X, depth+1)
+					}
+					if sl.Low != nil {
+						return hi.Sub(a.lin(sl.Low, depth+1))
+					}
+					return hi
+				}
+			}
+		}
 	}
 	return linAtom(a.VN(v))
+}
+
+// lenOf: the linear form of len(x) for a slice or string value x that is not itself the operand of a len call.
+func (a *FA) lenOf(x ssa.Value, depth int) Lin {
+	if sl, ok := x.(*ssa.Slice); ok {
+		if _, isPtr := sl.X.Type().Underlying().(*types.Pointer); !isPtr {
+			var hi Lin
+			if sl.High != nil {
+				hi = a.lin(sl.High, depth+1)
+			} else {
+				hi = a.lenOf(sl.X, depth+1)
+			}
+			if sl.Low != nil {
+				return hi.Sub(a.lin(sl.Low, depth+1))
+			}
+			return hi
+		}
+	}
+	return linAtom("call:builtin len(" + a.VN(x) + ")")
 }
 
 // ---------- dominating conditions ----------
@@ -838,6 +876,10 @@ type LoopIV struct {
 	Step       int64
 	N          Lin // exclusive upper bound established by the dominating guard (valid if HasN)
 	HasN       bool
+	// a guard on a multiple of the index, `Scale*idx < ScaledN` (e.g. `w<<6 < end` for a word counter w)
+	Scale      int64
+	ScaledN    Lin
+	HasScaledN bool
 	Facts      []string
 }
 
@@ -921,6 +963,19 @@ func (a *FA) InductionOf(idx ssa.Value, use *ssa.BasicBlock) (*LoopIV, bool) {
 				iv.N, iv.HasN = n, true
 				iv.Facts = append(iv.Facts, fmt.Sprintf("guard at %s: index < %s", a.W.InstrPos(c.If), n))
 				break
+			}
+			if cf := D.T[phiAtom]; !iv.HasScaledN && (cf > 1 && (op == opLT || op == opLE) || cf < -1 && (op == opGT || op == opGE)) {
+				// cf*phi + R < 0  <=>  cf*idx < cf*idx - D
+				sc, DD := cf, D
+				if cf < 0 {
+					sc, DD = -cf, D.Neg()
+				}
+				n := linConst(0).addScaled(L, sc).Sub(DD)
+				if op == opLE || op == opGE {
+					n.K++
+				}
+				iv.Scale, iv.ScaledN, iv.HasScaledN = sc, n, true
+				iv.Facts = append(iv.Facts, fmt.Sprintf("guard at %s: %d*index < %s", a.W.InstrPos(c.If), sc, n))
 			}
 		}
 	}
